@@ -213,6 +213,23 @@ Theorem C18_fs_create_from_current_position : forall D objs0 inputs sched tid t 
 Proof. exact fs_create_from_current_position. Qed.
 Print Assumptions C18_fs_create_from_current_position.
 
+(** A failing input is a failing input whatever error VALUE it fails with
+    (io.ErrUnexpectedEOF of a truncated gzip / http / tar stream, a closed
+    pipe, a deadline, a cancelled context, an error that merely looks like
+    EOF): for every relabelling [g] of the error values of the script, a call
+    whose input fails part-way never returns a key, never committed, and its
+    temp file is gone. *)
+Theorem C18_failed_input_any_error_value : forall D objs0 inputs sched tid t s0 g r e,
+  wf_objs D objs0 ->
+  nth_error (sthr (runs D objs0 inputs sched)) tid = Some t ->
+  nth_error inputs tid = Some (relabel g s0) ->
+  res t = Some r ->
+  snd (drain s0) = RFail e ->
+  (forall k, r <> ROk k) /\ committed t = false /\
+  lookup_nat tid (tmp (sfs (runs D objs0 inputs sched))) = None.
+Proof. exact fs_failed_input_any_error_value. Qed.
+Print Assumptions C18_failed_input_any_error_value.
+
 (** A string that is not a key — a key with a path suffix, a character just
     outside the ranges, 64 characters that spell a path — is never found,
     whatever lies in or beside the directory. *)
@@ -498,12 +515,13 @@ Theorem C18_source_frozen :
   valid_key gen_key_len gen_key_ranges gen_tmp_dir_name = false /\
   gen_mem_put_copies = true /\ gen_mem_get_copies = true /\
   gen_create_uses_reader_sequentially = [true; true; true] /\
+  gen_create_reader_origin = std_reader_origin /\
   (gen_tmp_name_src = std_tmp_name_src /\ (16 <=? gen_tmp_name_bytes) = true /\ gen_tmp_in_dir = true) /\
   first_diff 0 frozen_texts = None.
 Proof.
   exact (conj gen_fs_create_frozen (conj gen_fs_commit_frozen (conj gen_key_shape
         (conj gen_key_len_frozen (conj gen_key_ranges_frozen (conj gen_tmp_dir_not_a_key
-        (conj gen_mem_put_copies_ok (conj gen_mem_get_copies_ok (conj gen_create_reader_sequential (conj gen_tmp_name_ok gen_texts_frozen)))))))))).
+        (conj gen_mem_put_copies_ok (conj gen_mem_get_copies_ok (conj gen_create_reader_sequential (conj gen_create_reader_unwrapped (conj gen_tmp_name_ok gen_texts_frozen))))))))))).
 Qed.
 Print Assumptions C18_source_frozen.
 
@@ -650,3 +668,20 @@ Example C18_absolute_rewind_refuted :
   map res (sthr good) = [Some (ROk (Hk toyD [1; 2; 3]))] /\
   objs (sfs good) = [(Hk toyD [1; 2; 3], [1; 2; 3])].
 Proof. vm_compute. repeat split. discriminate. Qed.
+
+(** What feeding the tee with the caller's own reader is relied upon for.  A
+    wrapper that maps the error value 200 (io.ErrUnexpectedEOF in the harness's
+    table) to end-of-stream ([eof_wrapper], NOT the deployed code): an input
+    that delivers [1;2] and then fails with that value becomes an object and a
+    key; with any other value, and with the deployed skeleton on the unwrapped
+    script, it is an error and nothing is left. *)
+Example C18_error_value_mapped_to_eof_refuted :
+  let s0 := [([1; 2], RNil); ([], RFail 200)] in
+  let sched := repeat (0%nat, false) 16 in
+  let bad := runs toyD [] [eof_wrapper 200 s0] sched in
+  let good := runs toyD [] [s0] sched in
+  let other := runs toyD [] [eof_wrapper 200 (relabel (fun _ => 201) s0)] sched in
+  map res (sthr bad) = [Some (ROk (Hk toyD [1; 2]))] /\ objs (sfs bad) = [(Hk toyD [1; 2], [1; 2])] /\
+  map res (sthr good) = [Some (RErr (EInput 200))] /\ objs (sfs good) = [] /\ tmp (sfs good) = [] /\
+  map res (sthr other) = [Some (RErr (EInput 201))] /\ objs (sfs other) = [].
+Proof. vm_compute. repeat split. Qed.
